@@ -364,17 +364,13 @@ func (m *Message) ReadFrom(r io.Reader) error {
 }
 
 func readSection(reader *bufio.Reader, readN int) ([]byte, error) {
-	buf := make([]byte, readN)
-
-	var err error
-	n := 0
-	for n < readN {
-		m, err := reader.Read(buf[n:])
-		if err != nil {
-			break
-		}
-		n += m
+	if readN < 0 {
+		return nil, errors.New("Negative section size")
 	}
+
+	// The size is given by the remote: allocate as the data arrives.
+	buf, err := io.ReadAll(io.LimitReader(reader, int64(readN)))
+	n := len(buf)
 
 	if err != nil {
 		return buf, err
